@@ -187,3 +187,66 @@ func VerifC09_HTTPStreamLayer() {
 	}
 	verif.Cover("end")
 }
+
+type zzNBodyRecv struct {
+	zzNRecv
+	body string
+}
+
+func (r *zzNBodyRecv) OnReceive(ctx context.Context, h api.HeaderMap, d buffer.IoBuffer, t api.HeaderMap) {
+	if d != nil {
+		r.body += string(d.Bytes())
+	}
+	r.zzNRecv.OnReceive(ctx, h, d, t)
+}
+
+// VerifC07_HTTP1ClientDispatchSegmentation: the upstream HTTP/1 stream layer
+// (real pool, stream client, stream connection and its response-reading
+// goroutine) gets a response with a body in one piece or cut in two at any
+// byte. Wherever the cut falls the request receives the same status and body,
+// exactly once, and the connection goes back to the pool.
+func VerifC07_HTTP1ClientDispatchSegmentation() {
+	verif.Switches(0)
+	info := &zzInfo{rm: cluster.NewResourceManager(v2.CircuitBreakers{Thresholds: []v2.Thresholds{{MaxConnections: 2, MaxRequests: 2}}}), st: zzClusterStats()}
+	host := &zzNHost{zzHost: zzHost{info: info, hs: zzHostStats()}}
+	pool := NewConnPool(context.Background(), host).(*connPool)
+	wire := []byte("HTTP/1.1 200 OK\r\nX-K: v\r\nContent-Length: 3\r\n\r\nabc")
+	cut := verif.Choose("cut", len(wire)+1)
+	ctx := buffer.NewBufferPoolContext(variable.NewVariableContext(context.Background()))
+	variable.SetString(ctx, types.VarHost, "a.b")
+	variable.SetString(ctx, types.VarPath, "/p")
+	r := &zzNBodyRecv{}
+	_, sender, reason := pool.NewStream(ctx, r)
+	verif.Assert(sender != nil && reason == "", "the pool refused a request although it has capacity")
+	if sender == nil {
+		return
+	}
+	r.sender = sender
+	verif.Assert(sender.AppendHeaders(ctx, mosnhttp.RequestHeader{RequestHeader: &fasthttp.RequestHeader{}}, true) == nil, "request not sent")
+	verif.Settle()
+	c := host.conns[0]
+	feed := func(p []byte) {
+		if len(p) == 0 {
+			return
+		}
+		rb := buffer.NewIoBufferBytes(append([]byte{}, p...))
+		done := false
+		go func() {
+			for _, f := range c.filters {
+				f.OnData(rb)
+			}
+			done = true
+		}()
+		verif.Settle()
+		verif.Assert(done && rb.Len() == 0, "the stream layer did not take the bytes of a read")
+	}
+	feed(wire[:cut])
+	if cut < len(wire) {
+		verif.Assert(r.replies == 0 || cut >= len(wire), "a response was delivered before it was complete")
+	}
+	feed(wire[cut:])
+	verif.Settle()
+	verif.Assert(r.replies == 1 && r.status == 200 && r.body == "abc", "the response handed to the request depends on how the server's bytes were cut into reads")
+	verif.Assert(!c.closed && len(pool.availableClients) == 1, "the connection did not go back to the pool after a clean exchange")
+	verif.Cover("end")
+}
